@@ -12,7 +12,6 @@ pub use self::unwind::DwarfUnwinder;
 use crate::debugger::ExplorationContext;
 use crate::debugger::address::{GlobalAddress, RelocatedAddress};
 use crate::debugger::context::gcx;
-use crate::debugger::debugee::dwarf::eval::AddressKind;
 use crate::debugger::debugee::dwarf::symbol::SymbolTab;
 use crate::debugger::debugee::dwarf::unit::die::{DerefContext, Die};
 use crate::debugger::debugee::dwarf::unit::die_ref::{FatDieRef, Function, Variable};
@@ -22,7 +21,7 @@ use crate::debugger::debugee::dwarf::unit::{
 use crate::debugger::debugee::dwarf::utils::PathSearchIndex;
 use crate::debugger::debugee::{Debugee, Location};
 use crate::debugger::error::Error;
-use crate::debugger::error::Error::{DebugIDFormat, UnitNotFound};
+use crate::debugger::error::Error::DebugIDFormat;
 use crate::debugger::register::{DwarfRegisterMap, RegisterMap};
 use crate::{muted_error, resolve_unit_call, version_switch, weak_error};
 use gimli::CfaRule::RegisterAndOffset;
@@ -180,10 +179,10 @@ impl DebugInformation {
 
     fn evaluate_cfa(
         &self,
-        debugee: &Debugee,
         registers: &DwarfRegisterMap,
         utr: &UnwindTableRow<usize>,
-        ecx: &ExplorationContext,
+        encoding: gimli::Encoding,
+        pid: nix::unistd::Pid,
     ) -> Result<RelocatedAddress, Error> {
         let rule = utr.cfa();
         match rule {
@@ -192,13 +191,10 @@ impl DebugInformation {
                 Ok(RelocatedAddress::from(ra as usize).offset(*offset as isize))
             }
             CfaRule::Expression(expr) => {
-                let unit = debug_info_exists!(self.find_unit_by_pc(ecx.location().global_pc))
-                    .ok_or(UnitNotFound(ecx.location().global_pc))?;
-                let evaluator =
-                    resolve_unit_call!(&self.inner, unit, evaluator, debugee, self.dwarf());
-                let expr_result = evaluator.evaluate(ecx, expr.get(&self.eh_frame)?)?;
-
-                Ok((expr_result.into_scalar::<usize>(AddressKind::Value)?).into())
+                let expr = expr.get(&self.eh_frame)?;
+                unwind::evaluate_cfi_expression(expr, encoding, None, registers, pid)
+                    .map(|cfa| RelocatedAddress::from(cfa as usize))
+                    .ok_or(Error::UnwindNoContext)
             }
         }
     }
@@ -209,16 +205,21 @@ impl DebugInformation {
         ecx: &ExplorationContext,
     ) -> Result<RelocatedAddress, Error> {
         let mut ucx = Box::new(UnwindContext::new());
-        let row = self.eh_frame.unwind_info_for_address(
+        let fde = self.eh_frame.fde_for_address(
+            &self.bases,
+            ecx.location().global_pc.into(),
+            EhFrame::cie_from_offset,
+        )?;
+        let row = fde.unwind_info_for_address(
+            &self.eh_frame,
             &self.bases,
             &mut ucx,
             ecx.location().global_pc.into(),
-            EhFrame::cie_from_offset,
         )?;
         let mut registers = DwarfRegisterMap::from(RegisterMap::current(ecx.pid_on_focus())?);
         // the CFA rule is defined over the registers of the frame in focus
         debugee.restore_registers_at_frame(ecx.pid_on_focus(), &mut registers, ecx.frame_num())?;
-        self.evaluate_cfa(debugee, &registers, row, ecx)
+        self.evaluate_cfa(&registers, row, fde.cie().encoding(), ecx.pid_on_focus())
     }
 
     pub fn debug_addr(&self) -> &DebugAddr<EndianArcSlice> {
